@@ -32,6 +32,15 @@ def W3():
     ]
 
 
+def W4():
+    """large geometries: two-digit columns, rows beyond H, many virtual rows"""
+    return [
+        plate("P", 8, 12, 0, 2000, 500),
+        plate("Q", 16, 24, 0, 200, 0),
+        trough("T", 8, 3, 100, 100000, [50000, 40000, 30000]),
+    ]
+
+
 def spec_of(config, name):
     return next(s for s in config["labware"] if s["name"] == name)
 
@@ -144,6 +153,7 @@ class BaseA:
     tier = "quick"
 
     def replay(self, case):
+        clear_caches()
         cfg = case["config"]
         W = self.init(cfg)
         out = []
@@ -153,20 +163,85 @@ class BaseA:
         return [[c, str(d)] for c, d in out]
 
 
+_CACHED = None
+
+
+def clear_caches():
+    """Reset every functools cache and module-level dict/list cache-like object of robotools, so that each case
+    starts from the same hidden state (long-lived workers would otherwise make outcomes order-dependent)."""
+    global _CACHED
+    import sys
+
+    if _CACHED is None:
+        _CACHED = []
+        for name, mod in list(sys.modules.items()):
+            if not name.startswith("robotools") or mod is None:
+                continue
+            for attr, obj in list(vars(mod).items()):
+                if callable(getattr(obj, "cache_clear", None)):
+                    _CACHED.append(("fn", obj))
+                elif isinstance(obj, (dict, set)) and attr.startswith("_") and not attr.startswith("__") and len(obj) == 0:
+                    # private module-level containers that are empty at import time are treated as caches
+                    _CACHED.append(("container", obj))
+    for kind, obj in _CACHED:
+        if kind == "fn":
+            obj.cache_clear()
+        else:
+            obj.clear()
+
+
 class BaseB:
     """common parts of the input-lattice harnesses: run_chunk(chunk, stats) enumerates cases and calls
-    self.one(case) -> (outcome, nontrivial_key or None, [(clause, detail)])"""
+    self.one(case) -> (outcome, nontrivial_key or None, [(clause, detail)]).
+
+    Hidden state between calls is owned explicitly: caches are cleared at the start of every chunk, and a
+    violation that does not reproduce in isolation is re-examined as a *sequence* (predecessor, case)."""
 
     regime = "B"
     tier = "quick"
+    SEQ_WINDOW = 400
 
     def run_chunk(self, chunk, st):
+        clear_caches()
+        prev = []
         for case in self.cases(chunk):
             outcome, key, viol = self.one(case)
+            if viol:
+                # does it depend on what ran before?
+                clear_caches()
+                o2, k2, v2 = self.one(case)
+                if sorted(c for c, _ in v2) != sorted(c for c, _ in viol):
+                    seq = None
+                    for pred in reversed(prev[-self.SEQ_WINDOW :]):
+                        clear_caches()
+                        self.one(pred)
+                        o3, k3, v3 = self.one(case)
+                        if sorted(c for c, _ in v3) == sorted(c for c, _ in viol):
+                            seq = [pred, case]
+                            break
+                    if seq is None:
+                        seq = prev[-self.SEQ_WINDOW :] + [case]
+                    st.case(outcome + ":order-dependent", {"seq": seq}, key)
+                    for clause, detail in viol:
+                        st.violation(clause + "/order-dependent", {"seq": seq}, f"only after {len(seq) - 1} earlier call(s) in the same process: {detail}")
+                    clear_caches()
+                    for c in prev[-self.SEQ_WINDOW :]:
+                        self.one(c)
+                    prev.append(case)
+                    continue
             st.case(outcome, case, key)
             for clause, detail in viol:
                 st.violation(clause, case, detail)
+            prev.append(case)
+            if len(prev) > 2 * self.SEQ_WINDOW:
+                del prev[: self.SEQ_WINDOW]
 
     def replay(self, case):
+        clear_caches()
+        if isinstance(case, dict) and "seq" in case:
+            for c in case["seq"][:-1]:
+                self.one(c)
+            outcome, key, viol = self.one(case["seq"][-1])
+            return [[c + "/order-dependent", str(d)] for c, d in viol]
         outcome, key, viol = self.one(case)
         return [[c, str(d)] for c, d in viol]
